@@ -77,7 +77,7 @@ func TestZsimC11(t *testing.T) {
 		Property: "C11", Name: "sqlx",
 		Run:     c11Run,
 		Horizon: time.Hour,
-		Rule:    fmt.Sprintf("even seeds enumerate the %d transaction cases (statements 0..3 x body ending nil/error/panic at statement k x driver fault at open/begin/exec#j/commit/rollback x body ignoring the exec error x Transact/TransactCtx x the caller's context cancelled before statement k or just before the body returns) round-robin, each on a fresh connection; odd seeds draw a destination struct shape, column layout and result set for the row mapping; non-trivial = a driver fault or a non-nil body outcome occurred, or a column permutation / extra / missing column was generated; distinct = distinct event-log fingerprint", len(c11Cases)),
+		Rule:    fmt.Sprintf("even seeds enumerate the %d transaction cases (statements 0..3 x body ending nil/error/panic at statement k x driver fault at open/begin/exec#j/commit/rollback x body ignoring the exec error x Transact/TransactCtx x the caller's context cancelled before statement k or just before the body returns) round-robin, each on a fresh connection; odd seeds draw a destination struct shape (flat, embedded untagged, embedded with tags of its own, pointer-embedded), column layout (permuted, missing, surplus columns) and result set for the row mapping; non-trivial = a driver fault or a non-nil body outcome occurred, or a column permutation / extra / missing column was generated; distinct = distinct event-log fingerprint", len(c11Cases)),
 		Real:    []string{"lib/store/sqlx commonConn.Transact/TransactCtx, transact, transactOnConn, txSession", "lib/store/sqlx orm.go, stmt.go", "database/sql", "lib/breaker (per-connection breaker)"},
 		Stub:    []string{"fake database/sql driver (internal/zsim/zsql)", "transaction bodies (scripts)"},
 	})
